@@ -170,7 +170,7 @@ def shard(m, items, inputs=()):
             if compare_case(m, g, model, ref, t):
                 nt += 1
         m.add('nontrivial', nt)
-        if nt and len(gs.render(e)) > 14:
+        if nt and len(gs.render(e)) > 8:
             m.sample({'start': gs.render(e), 'inputs': len(inputs), 'nontrivial_inputs': nt})
 
 
